@@ -16,6 +16,21 @@ import (
 // twinAccepted: differences between twin clauses confirmed by reading to change nothing; any other difference
 // in the same pair is still reported. key -> {only in the first clause, only in the second, reason}.
 var twinAccepted = map[string][3]string{
+	"jp.Expr.FirstFound#4:[]any=gen.Array": {
+		"if 0 < LEN",
+		"",
+		"wildcard as the last fragment: the []any copy returns tv[0] under `if 0 < len(tv)`, the gen.Array copy returns from the first iteration of `for _, v = range tv` - the same element",
+	},
+	"jp.Expr.modify#10:[]any=gen.Array": {
+		"",
+		"push fi | descentChildFlag",
+		"descent: the simple-data copies push through the helper descentAddValue(stack, v, fi), the gen copies push inline",
+	},
+	"jp.Expr.modify#10:map[string]any=gen.Object": {
+		"",
+		"push fi | descentChildFlag",
+		"descent: the simple-data copies push through the helper descentAddValue(stack, v, fi), the gen copies push inline",
+	},
 	"jp.Slice.remove#1:[]any=gen.Array": {
 		"if start < 0 || end < 0 || LEN <= start || step == 0",
 		"if start < 0 || end < 0 || LEN <= start || LEN <= end || step == 0",
@@ -24,7 +39,23 @@ var twinAccepted = map[string][3]string{
 }
 
 func ruleC13Extra(prog *Program, rep *Report) {
-	rep.Rules = append(rep.Rules, "B-twins: in every remove / removeOne method of a jp fragment the type-switch clause for []any and the one for gen.Array (and map[string]any / gen.Object) have the same index-selection fingerprint (integer assignments, integer tests, loop headers - container and element names normalised): the removal touches the same positions in both representations")
+	ruleTwinClauses(prog, rep, 20, func(fd *ast.FuncDecl) bool { return twinScope(fd) == "C13" })
+}
+
+// twinScope: which property a function of jp belongs to for the twin-clause comparison.
+func twinScope(fd *ast.FuncDecl) string {
+	k := funcKey(fd)
+	switch {
+	case filterRootMutators[k], fd.Name.Name == "remove", fd.Name.Name == "removeOne":
+		return "C13"
+	case strings.HasPrefix(k, "Expr.Get") && k != "Expr.GetNodes", strings.HasPrefix(k, "Expr.First") && k != "Expr.FirstNode":
+		return "C05"
+	}
+	return "C11"
+}
+
+func ruleTwinClauses(prog *Program, rep *Report, floor int, scope func(fd *ast.FuncDecl) bool) {
+	rep.Rules = append(rep.Rules, "B-twins: in every function of package jp (reported under the property the function belongs to: Get / First - C05, the mutators and remove methods - C13, everything else - C11) the type-switch clause for []any and the one for gen.Array (and map[string]any / gen.Object) have the same index-selection fingerprint (integer assignments, integer tests, loop headers - container and element names normalised): the removal touches the same positions in both representations")
 	pk := prog.Pkg("jp")
 	if pk == nil {
 		rep.Errorf("B-twins: package jp not loaded")
@@ -39,7 +70,7 @@ func ruleC13Extra(prog *Program, rep *Report) {
 		}
 		for _, d := range f.Decls {
 			fd, ok := d.(*ast.FuncDecl)
-			if !ok || fd.Body == nil || fd.Recv == nil || (fd.Name.Name != "remove" && fd.Name.Name != "removeOne") {
+			if !ok || fd.Body == nil || (scope != nil && !scope(fd)) {
 				continue
 			}
 			idx := 0
@@ -87,8 +118,8 @@ func ruleC13Extra(prog *Program, rep *Report) {
 		}
 	}
 	rep.Eval(compared)
-	if compared < 6 {
-		rep.Errorf("B-twins compared %d clause pairs (floor 6): anchors did not resolve", compared)
+	if compared < floor {
+		rep.Errorf("B-twins compared %d clause pairs (floor %d): anchors did not resolve", compared, floor)
 	}
 }
 
